@@ -166,6 +166,7 @@ class Ctx:
     def __init__(self, world, replica=False, writable=False):
         self.world, self.replica, self.writable = world, replica, writable
         self.copies = {}
+        self.guards = []    # (caller-owned list / dict, deep copy before)
         self.used = []      # (trainer kind, dim)
         self.used_aligners = []
 
@@ -232,6 +233,16 @@ def _run_seg(ctx, a):
 
 
 def call(name, ctx, a, fault=None):
+    out = _call(name, ctx, a, fault)
+    for obj, before in getattr(ctx, 'guards', ()):
+        if obj != before:
+            return Outcome('impure', exc=ops.PurityViolation(
+                f'a caller-owned {type(obj).__name__} argument was modified: '
+                f'{before!r} -> {obj!r}'))
+    return out
+
+
+def _call(name, ctx, a, fault=None):
     fired = None
     try:
         if fault is None:
@@ -346,7 +357,8 @@ def run_op(world, idx, op):
         return
     label = _entry_label(name, a)
     if out.kind == 'impure':
-        _viol(world, 'O2', idx, name, a, str(out.exc), fault=fault)
+        _viol(world, 'O1' if 'was modified' in str(out.exc) else 'O2',
+              idx, name, a, str(out.exc), fault=fault)
         world.log.append([idx, label, 'impure'])
         return
     world.count('ops_executed')
@@ -697,7 +709,8 @@ def generate(run_seed, tier='quick'):
     if mode == 'big':
         fault_kinds = []
         pool = [n for n in names if ops.ENTRIES[n].group in (
-            'metric', 'metric', 'mask', 'beamformer', 'alignment')]
+            'metric', 'metric', 'mask', 'beamformer', 'alignment')
+            or n == 'binarygmm']
         weights = [ops.ENTRIES[n].weight * (4 if ops.ENTRIES[n].group == 'metric' else 1)
                    for n in pool]
         for _ in range(int(rng.randint(6, 13))):
